@@ -355,9 +355,16 @@ impl Prop for C18 {
             opts.indent = true;
             opts.comments = true;
         }
+        // twin lines: the first line of two files jumps to an undefined label (same place in
+        // each file, names of the same length)
+        let mut files = files;
+        if files.len() >= 2 && ch.chance(1, 5) {
+            let k = 1 + ch.below(files.len() - 1);
+            files[0].1.insert(0, Line::Ins(Ins::new("j", vec![Opd::L("nowhereA".into())])));
+            files[k].1.insert(0, Line::Ins(Ins::new("j", vec![Opd::L("nowhereB".into())])));
+        }
         let missing_include = ch.chance(1, 8);
         let crlf = ch.chance(1, 6);
-        let mut files = files;
         if missing_include {
             let k = ch.below(files.len());
             let at = ch.below(files[k].1.len() + 1);
